@@ -187,7 +187,7 @@ def is_past(f):
 
 def obligations(tier, rng):
     quick = tier == 'quick'
-    bounds = [(0, 0), (0, 1), (1, 2), (0, 2)] if quick else refsem.BOUNDS_T
+    bounds = [(0, 0), (0, 1), (1, 2), (0, 2), (2, 3), (3, 4)] if quick else refsem.BOUNDS_T     # a >= 2: instants at which the whole window lies before the trace
     ops = ['not', 'rise', 'fall', 'prev', 's_prev', 'next', 's_next', 'once', 'historically', 'eventually', 'always',
            'once_t', 'historically_t', 'eventually_t', 'always_t', 'and', 'or', 'implies', 'since', 'until', 'unless',
            'since_t', 'until_t', 'unless_t']
